@@ -77,3 +77,42 @@ theorem runD_ofE (ans) (r : E α) : runD ans (Op.ofE r) = (match r with
     | .error e => .fail e) := by cases r <;> rfl
 
 end AV
+
+namespace AV
+open Prog
+
+/-- the calls a program makes against answers that depend only on the call, in order -/
+def callsD (ans : (c : Call) → c.Resp) : Prog α → List Call
+  | .call c k => c :: callsD ans (k (ans c))
+  | _ => []
+
+@[simp] theorem callsD_ret (ans) (a : α) : callsD ans (.ret a) = [] := rfl
+@[simp] theorem callsD_pure (ans) (a : α) : callsD ans (pure a : Prog α) = [] := rfl
+@[simp] theorem callsD_fail (ans) (e : Err) : callsD ans (.fail e : Prog α) = [] := rfl
+@[simp] theorem callsD_panic (ans) (s : String) : callsD ans (.panic s : Prog α) = [] := rfl
+
+theorem callsD_bind (ans) (p : Prog α) (f : α → Prog β) :
+    callsD ans (p >>= f) = callsD ans p ++ (match runD ans p with
+      | .ret a => callsD ans (f a)
+      | _ => []) := by
+  induction p with
+  | ret a => rfl
+  | fail e => rfl
+  | panic s => rfl
+  | call c k ih =>
+    show c :: callsD ans (k (ans c) >>= f) = c :: callsD ans (k (ans c)) ++ _
+    rw [ih (ans c)]
+    rfl
+
+/-- the calls of `run` against the environment that ignores the call index are `callsD` -/
+theorem run_calls_det (ans : (c : Call) → c.Resp) (p : Prog α) (n : Nat) :
+    (run p (fun _ c => ans c) n).1.map (·.call) = callsD ans p := by
+  induction p generalizing n with
+  | ret a => rfl
+  | fail e => rfl
+  | panic s => rfl
+  | call c k ih =>
+    show c :: ((run (k (ans c)) (fun _ c => ans c) (n + 1)).1.map (·.call)) = c :: callsD ans (k (ans c))
+    rw [ih (ans c) (n + 1)]
+
+end AV
